@@ -7,6 +7,7 @@ import (
 	"fmt"
 	"strings"
 	"sync"
+	"sync/atomic"
 	"testing"
 	"time"
 
@@ -26,7 +27,7 @@ func TestMain(m *testing.M) {
 		"rapid state machine of Store / Load / LoadLatest over 3 adversarial ids x 5 overlapping timestamps with records of arbitrary binary keys (1-300 bytes), revoked on/off, with/without parent meta, against a reference table, for: "+
 			"MemoryMetastore; SQLMetastore (mysql, postgres, oracle placeholder dialects) over a fake database/sql driver that INTERPRETS the statements against the documented schema (PRIMARY KEY(id, created), second-resolution TIMESTAMP, dialect-specific placeholders); "+
 			"both DynamoDB metastores (SDK v1 and v2) over one semantic fake that evaluates condition / key-condition / projection expressions with their name and value maps, honours ScanIndexForward and Limit, knows only the configured table and is eventually consistent unless ConsistentRead is set; "+
-			"table names and region suffix drawn. One Store in seven is issued with an already cancelled / expired context (it may fail, but never reports a duplicate as stored, never touches an existing row, and true still means stored). Plus a concurrent same-key Store race on MemoryMetastore. "+
+			"table names and region suffix drawn. One Store in seven is issued with an already cancelled / expired context (it may fail, but never reports a duplicate as stored, never touches an existing row, and true still means stored). Plus 16 goroutines sharing one metastore object and reading different ids at the same time (each gets its own id's newest / exact record), and a concurrent same-key Store race on MemoryMetastore. "+
 			"Oracle: Store returns true exactly when (id, created) was absent and never changes an existing row; Load returns the persisted fields or nil,nil; LoadLatest returns the greatest created; every completed Store is visible to every later read; GetRegionSuffix = region iff enabled. "+
 			"One evaluation = one sequence on one backend. Non-trivial = contains a duplicate Store and a LoadLatest over >= 2 versions; distinct = (backend, operation sequence)",
 		"the fakes' reading of DynamoDB / SQL semantics is the trusted base; no real database", "EnvelopeKeyRecord.ID is documented as not persisted (json:\"-\") and is not compared")
@@ -345,4 +346,70 @@ func concurrentStore(t *testing.T, backend string, ms appencryption.Metastore, r
 	}
 	kit.Rec.Enumerated(int64(rounds), 0)
 	kit.Rec.LabelN("concurrent-store-rounds:"+backend, int64(rounds))
+}
+
+// TestConcurrentReads: one metastore object shared by goroutines that read DIFFERENT ids at the
+// same time (every session of a factory does this): each reader gets the record of the id it
+// asked for - the newest one for LoadLatest, the exact one for Load.
+func TestConcurrentReads(t *testing.T) {
+	for _, name := range backendNames {
+		name := name
+		kit.Scripted(t, func(rt *rapid.T) {
+			b := newBackend(rt, name)
+			defer b.cleanup()
+			const ids, versions = 16, 3
+			for i := 0; i < ids; i++ {
+				for v := 0; v < versions; v++ {
+					id, created := fmt.Sprintf("_IK_reader%d_svc_prod", i), int64(1_700_000_000+100*v+i)
+					ekr := &appencryption.EnvelopeKeyRecord{ID: id, Created: created, EncryptedKey: []byte{byte(i), byte(v), 7, 7}}
+					if ok, err := b.ms.Store(ctx, id, created, ekr); !ok {
+						t.Fatalf("harness: seeding %s failed: %v", name, err)
+					}
+				}
+			}
+			rounds := kit.Pick(400, 6000)
+			var wg sync.WaitGroup
+			var first atomic.Value
+			start := make(chan struct{})
+			for i := 0; i < ids; i++ {
+				wg.Add(1)
+				go func(i int) {
+					defer wg.Done()
+					defer func() {
+						if p := recover(); p != nil {
+							first.CompareAndSwap(nil, fmt.Sprintf("%s: reader %d panicked: %v", name, i, p))
+						}
+					}()
+					id := fmt.Sprintf("_IK_reader%d_svc_prod", i)
+					<-start
+					for r := 0; r < rounds && first.Load() == nil; r++ {
+						got, err := b.ms.LoadLatest(ctx, id)
+						want := int64(1_700_000_000 + 100*(versions-1) + i)
+						if err != nil || got == nil || got.Created != want || len(got.EncryptedKey) != 4 || got.EncryptedKey[0] != byte(i) {
+							first.CompareAndSwap(nil, fmt.Sprintf("%s: LoadLatest(%s) issued while other goroutines read other ids returned %+v (err=%v), expected the record created %d of that id", name, id, got, err, want))
+							return
+						}
+						if r%4 != 0 {
+							continue // mostly LoadLatest back to back: the calls of different readers overlap
+						}
+						v := r % versions
+						c := int64(1_700_000_000 + 100*v + i)
+						got, err = b.ms.Load(ctx, id, c)
+						if err != nil || got == nil || got.Created != c || got.EncryptedKey[0] != byte(i) || got.EncryptedKey[1] != byte(v) {
+							first.CompareAndSwap(nil, fmt.Sprintf("%s: Load(%s,%d) issued while other goroutines read other ids returned %+v (err=%v)", name, id, c, got, err))
+							return
+						}
+					}
+				}(i)
+			}
+			close(start)
+			wg.Wait()
+			if v := first.Load(); v != nil {
+				kit.Rec.Violation(v.(string))
+				t.Fatalf("C13 violated: %s", v)
+			}
+			kit.Rec.Enumerated(int64(rounds*ids), 0)
+			kit.Rec.LabelN("concurrent-read-rounds:"+name, int64(rounds*ids))
+		})
+	}
 }
